@@ -10,6 +10,7 @@ import (
 	"io"
 	"net"
 	"os"
+	"strings"
 	"sync"
 	"time"
 
@@ -396,6 +397,11 @@ func (d *Dialer) Dial(network, address string) (net.Conn, error) {
 	name := fmt.Sprintf("%s#%d", address, l.count)
 	d.N.leave()
 	a, b := d.N.Pair(name, l.Msg)
+	if i := strings.LastIndexByte(address, ':'); i >= 0 {
+		// the accepted end's local address carries the port that was dialled
+		b.la = addr{"10.0.0.2" + address[i:]}
+		a.ra = b.la
+	}
 	if !d.N.enter(l.o, "net.Dial2 "+address, nil) {
 		return nil, ErrClosed
 	}
